@@ -6,7 +6,7 @@ line one level deeper; the tree recovered from the indentation differs from the 
 tree or from the tree of the HTML rendering of the same abbreviation."""
 import re
 
-from .. import core, gen_abbr, hostile, outparse, probes, ref_tree
+from .. import core, gen_abbr, hostile, outparse, probes, ref_tree, stretch
 
 ID = 'C15'
 RULE = ('cases = (abbreviation from a generated written tree, syntax in haml/pug/slim, indent string); trees up to depth 4 with groups, climbs, repeaters, '
@@ -429,6 +429,16 @@ def run_shard(desc, ctx):
     pr = probes.Probes().add('emmet.markup.format.indent_format:element').add('emmet.markup.format.indent_format:push_value') \
         .add('emmet.markup.format.indent_format:push_primary_attributes').add('emmet.markup.format.indent_format:push_secondary_attributes').install()
     try:
+        import emmet as _em
+        from emmet.scanner import ScannerException as _SE
+        from emmet.token_scanner import TokenScannerException as _TE
+        # near misses (vmon/stretch.py): text the formatter looks at with a pattern - it only has to come back
+        for ab in stretch.near_miss_inputs(rng, ['div.%s', '.%s.md:flex', 'nav[class="%s px-4 md:px-8"]', 'p#%s', 'p[id=%s]', 'div[class="%s"]>p', 'p{%s}', 'p{<%s}', 'p.a.b.c.%s'], 14):
+            cfgn = {'syntax': rng.choice(['pug', 'haml', 'slim']), 'options': {'output.format': rng.random() < 0.7, 'comment.enabled': rng.random() < 0.2}}
+            stretch.must_return(ctx, _em.expand, (ab, cfgn), {'near_miss': True, 'abbr': ab, 'config': cfgn, '_allowed': (_SE, _TE)})
+        for line in stretch.near_miss_inputs(rng, stretch.WRAP_RUN_LINES, 8):
+            cfgn = {'syntax': rng.choice(['pug', 'haml', 'slim']), 'text': [line, 'two']}
+            stretch.must_return(ctx, _em.expand, (rng.choice(['ul>li*', 'p', 'div>p*>b']), cfgn), {'near_miss': True, 'wrap_line': line, 'config': cfgn, '_allowed': (_SE, _TE)})
         for i in range(desc['n']):
             if rng.random() < 0.04:
                 tree = tower(rng, rng.choice([14, 17, 20, 26, 33, 48, 70]))
